@@ -43,6 +43,8 @@ type Unit struct {
 	Roots    []string `json:"roots"`
 	// Sweep: every function of these packages matching the prefix list is a root (safety only)
 	SweepFuncs []string `json:"sweep_funcs,omitempty"`
+	// Scope "tagged" for this unit only (same meaning as the property-level scope)
+	Scope string `json:"scope,omitempty"`
 }
 
 type PropConfig struct {
@@ -184,7 +186,7 @@ func runUnit(u Unit, cfg *PropConfig, tier string, workdir string, res *checkRes
 	if v := os.Getenv("GOVC_TIMEOUT"); v != "" {
 		fmt.Sscanf(v, "%d", &timeout)
 	}
-	if cfg.Scope == "tagged" {
+	if cfg.Scope == "tagged" || u.Scope == "tagged" {
 		// this property's check counts contract clauses (and the invariants / preconditions they rest on);
 		// the zero-annotation safety sweep of code reached after them belongs to other properties
 		var keep []*Obligation
